@@ -866,7 +866,6 @@ fn check(prop: &str, tier: &str) -> i32 {
     let scale: f64 = std::env::var("VERIF_RUNS_SCALE").ok().and_then(|x| x.parse().ok()).unwrap_or(1.0);
     let watchdog = watchdog_interval();
     println!("check {} tier={} VERIF_SEED={} workers={}", prop, tier, verif_seed, workers);
-    let exe = std::env::current_exe().expect("current exe");
     let t0 = Instant::now();
     let dir = scratch_dir(&format!("{}-{}-{}", prop, tier, std::process::id()));
 
